@@ -23,6 +23,20 @@ Classification of a deviation at a sensitive position:
   * an EMPTY (falsy) sensitive value rendered as without mask instead of None is not flagged: the property speaks
     about non-empty values only and nothing is revealed.
 Non-sensitive positions -> C10.non-sensitive-unaltered; mask None -> C10.no-mask-identity / C10.document-is-masked-tree.
+
+Typed lists / dicts of scalars (class HolderCtx; replay dict {"holder", "where", "mask", "virtual", "out"}): a block
+with ListField(SecureField()), ListField(StringField(sensitive=True)), DictField(StringField(), SecureField()),
+ListField(BytesField()), ListField(ChallengeField()), ... next to a sensitive sibling, a VirtualField and a
+ListField(Schema), at the root / in a sub-configuration / in the items of a list of configurations; masks None, '',
+'*', 'xx', long; virtual on/off; to_tree + 5 formats.  Clauses: only the HOLDER field's own flag (and the flags of the
+fields of configurations at any depth, configurations held in lists included) decides what must be hidden - C10
+speaks of fields of configurations marked sensitive, and the item / value field of a typed list or dict is not a
+field of any configuration, so ListField(StringField(sensitive=True)) is not a sensitive list.  A holder marked
+sensitive itself (ListField(StringField(), sensitive=True), DictField(..., sensitive=True), ...) renders as the mask
+form and none of its plaintexts (nor their base64 / hex encodings) shows in the tree or the document bytes; the
+tree is plain data; every other holder - the ones with sensitive ITEM fields are kept as controls -, the siblings
+and the non-sensitive fields of the configuration items render exactly as without mask (same `virtual`).
+witness_key "sensitive-item-in-container:<holder>/<mask>".
 """
 import base64
 import copy
@@ -669,7 +683,13 @@ def rac(tier: str, seed: int) -> dict:
               "full cross at every depth until the budget is used.  Plus 40 'deep' shapes (ListField(Schema) / "
               "ListField(config type) at the root, then 1-2 containers inside the item, sensitive fields ONLY at "
               "the innermost level) x %d item patterns (which items hold a truthy / falsy / unset value) x 5 masks "
-              "x {tree, 1 rotating format}" % (len(QUICK_DEEP_KINDS), len(ITEM_PATTERNS)),
+              "x {tree, 1 rotating format}.  Plus typed lists / dicts of scalars: %d holders (8 marked sensitive "
+              "themselves; 7 whose ITEM / value field is marked sensitive kept only as controls for plain-data and "
+              "equal-to-unmasked, because C10 is about fields of configurations: the holder's own flag decides; 7 "
+              "without anything sensitive) + sensitive / virtual siblings + a ListField(Schema), at the root / in a "
+              "sub-configuration / in list items x 5 masks x virtual on/off x {tree + 5 formats} (quick, virtual on: "
+              "tree + 2 rotating formats)"
+              % (len(QUICK_DEEP_KINDS), len(ITEM_PATTERNS), len(_holders())),
         tier=tier, seed=seed)
     with sandbox():
         n = 0
@@ -688,14 +708,299 @@ def rac(tier: str, seed: int) -> dict:
                                  "leaf_kinds": len(kinds)} if n % 251 == 0 else None)
                 n += 1
                 _report(rec, block, mask, out, findings)
+        # sensitive values inside typed lists / dicts of scalars
+        for where in HOLDER_WHERES:
+            cc_ctx = HolderCtx(where)
+            for virtual in (False, True):
+                for mi, mask in enumerate(HOLDER_MASKS):
+                    outs = ["tree"] + FORMATS
+                    if tier == "quick" and virtual:     # virtual on: the tree + two rotating formats per mask
+                        outs = ["tree", FORMATS[mi % 5], FORMATS[(mi + 2) % 5]]
+                    for out in outs:
+                        per_holder = cc_ctx.run(mask, virtual, out)
+                        for holder in cc_ctx.holders:
+                            rec.case(key=("holder", where, holder, mask, virtual, out), nontrivial=True,
+                                     sample={"holder": holder, "where": where, "mask": mask, "virtual": virtual,
+                                             "out": out} if n % 251 == 0 else None)
+                            n += 1
+                            for fd in per_holder.get(holder, []):
+                                rec.violation(obligation=fd["ob"], what=fd["what"], witness_key=fd["wkey"],
+                                              replay={"holder": holder, "where": where, "mask": mask,
+                                                      "virtual": virtual, "out": out, "obligation": fd["ob"],
+                                                      "witness_key": fd["wkey"]})
     return rec.result(exhaustive=False)
+
+
+# ------------------------------------------------------- sensitive values inside typed lists / dicts of scalars
+
+OB_PLAIN = "core:Config.to_tree/post:C10.plain-data"
+HOLDER_WHERES = ["root", "sub", "item"]
+LONG_MASK = "<<REDACTED-BY-MASK>>"
+HOLDER_MASKS = [None, "", "*", "xx", LONG_MASK]
+_MASK_LABEL = {None: "none", "": "empty", "*": "char", "xx": "xx", LONG_MASK: "long"}
+
+
+def _holders():
+    """holder -> (make field, value, is the HOLDER field itself marked sensitive?).
+
+    Only the holder's own flag decides what must be hidden: C10 speaks of fields of configurations marked
+    sensitive (root, nested, config types, configurations held in lists).  The item / value field of a typed
+    list or dict is not a field of any configuration, so ListField(StringField(sensitive=True)) is NOT a sensitive
+    list; such holders stay in the enumeration as controls for the other two clauses (plain data; rendering equal
+    to the one without mask)."""
+    import cincoconfig as cc
+    return {
+        # controls: item / value field sensitive, holder not
+        "list-secure": (lambda: cc.ListField(cc.SecureField()), ["S3CR3T-ls-one", "S3CR3T-ls-two"], False),
+        "list-secure-with-none": (lambda: cc.ListField(cc.SecureField()), ["S3CR3T-lsn-one", None, ""], False),
+        "list-string-sensitive": (lambda: cc.ListField(cc.StringField(sensitive=True)),
+                                  ["S3CR3T-lss-one", "", "S3CR3T-lss-two"], False),
+        "dict-secure": (lambda: cc.DictField(cc.StringField(), cc.SecureField()),
+                        {"a": "S3CR3T-ds-one", "b": "S3CR3T-ds-two"}, False),
+        "dict-string-sensitive": (lambda: cc.DictField(cc.StringField(), cc.StringField(sensitive=True)),
+                                  {"a": "S3CR3T-dss-one"}, False),
+        "list-bytes-sensitive": (lambda: cc.ListField(cc.BytesField(sensitive=True)), ["S3CR3T-lbs-one"], False),
+        "list-challenge-sensitive": (lambda: cc.ListField(cc.ChallengeField("md5", sensitive=True)),
+                                     ["S3CR3T-lcs-pw", "S3CR3T-lcs-pw2"], False),
+        # holders that ARE sensitive themselves
+        "sensitive-list-string": (lambda: cc.ListField(cc.StringField(), sensitive=True),
+                                  ["S3CR3T-hls-one", "S3CR3T-hls-two"], True),
+        "sensitive-list-secure": (lambda: cc.ListField(cc.SecureField(), sensitive=True), ["S3CR3T-hlx-one"], True),
+        "sensitive-list-bytes": (lambda: cc.ListField(cc.BytesField(), sensitive=True), ["S3CR3T-hlb-one"], True),
+        "sensitive-list-untyped": (lambda: cc.ListField(sensitive=True), ["S3CR3T-hlu-one", 7], True),
+        "sensitive-list-empty": (lambda: cc.ListField(cc.StringField(), sensitive=True), [], True),
+        "sensitive-dict-string": (lambda: cc.DictField(cc.StringField(), cc.StringField(), sensitive=True),
+                                  {"a": "S3CR3T-hds-one"}, True),
+        "sensitive-dict-secure": (lambda: cc.DictField(cc.StringField(), cc.SecureField(), sensitive=True),
+                                  {"a": "S3CR3T-hdx-one"}, True),
+        "sensitive-dict-untyped": (lambda: cc.DictField(sensitive=True), {"a": "S3CR3T-hdu-one"}, True),
+        # nothing sensitive
+        "list-bytes": (lambda: cc.ListField(cc.BytesField()), ["public-bytes-one", "public-bytes-two"], False),
+        "list-challenge": (lambda: cc.ListField(cc.ChallengeField("sha256")), ["S3CR3T-lc-pw"], False),
+        "dict-challenge": (lambda: cc.DictField(cc.StringField(), cc.ChallengeField("sha1")),
+                           {"a": "S3CR3T-dc-pw"}, False),
+        "list-int": (lambda: cc.ListField(cc.IntField()), [1, 2, 3], False),
+        "list-string-with-none": (lambda: cc.ListField(cc.StringField()), ["public-one", None, ""], False),
+        "dict-str-int": (lambda: cc.DictField(cc.StringField(), cc.IntField()), {"a": 1}, False),
+        "list-untyped": (lambda: cc.ListField(), ["public-untyped", 5, None, [1], {"k": 2}], False),
+    }
+
+
+def _get_cfg(cfg, bpath):
+    for x in bpath:
+        cfg = cfg[x] if isinstance(x, int) else getattr(cfg, x)
+    return cfg
+
+
+def _holder_key(holder):
+    return "h_" + holder.replace("-", "_")
+
+
+def _plaintexts(value):
+    """the sensitive plaintexts and their plain encodings (base64 / hex are encodings, not encryption)"""
+    vals = value.values() if isinstance(value, dict) else value
+    out = []
+    for v in vals:
+        if isinstance(v, str) and v.startswith("S3CR3T"):
+            out += [v, base64.b64encode(v.encode()).decode(), v.encode().hex()]
+    return out
+
+
+class HolderCtx:
+    """one configuration: a block with every holder, a sensitive sibling, a non-sensitive sibling, a virtual field
+    and a ListField(Schema) whose items have a sensitive field (lists that hold configurations next to lists that
+    hold none), placed at the root / in a sub-configuration / in the items of a list of configurations"""
+
+    def __init__(self, where):
+        import cincoconfig as cc
+        self.where = where
+        self.H = _holders()
+        self.holders = list(self.H) + ["confs-and-siblings", "virtual-field-of-list-item"]
+
+        def conf_item_schema():
+            s = cc.Schema()
+            s.secret = cc.StringField(sensitive=True)
+            s.pub = cc.StringField()
+            return s
+
+        def block_schema():
+            s = cc.Schema()
+            s.sib = cc.StringField(sensitive=True)
+            s.pub = cc.StringField()
+            s.virt = cc.VirtualField(lambda cfg: "public-virtual")
+            s.confs = cc.ListField(conf_item_schema())
+            for h, (make, _, _) in self.H.items():
+                s._add_field(_holder_key(h), make())
+            return s
+
+        def fill(cfg, tag):
+            cfg.sib = "S3CR3T-sibling-" + tag
+            cfg.pub = "public-" + tag
+            cfg.confs = [{"secret": "S3CR3T-conf-%s-0" % tag, "pub": "public-conf"}, {"pub": "public-conf-1"}]
+            for h, (_, value, _) in self.H.items():
+                setattr(cfg, _holder_key(h), copy.deepcopy(value))
+
+        root = cc.Schema()
+        if where == "root":
+            root = block_schema()
+            self.cfg = root()
+            fill(self.cfg, "root")
+            self.blocks = [((), self.cfg)]
+        elif where == "sub":
+            root.top = cc.StringField()
+            root.sub = block_schema()
+            self.cfg = root()
+            fill(self.cfg.sub, "sub")
+            self.blocks = [(("sub",), self.cfg.sub)]
+        else:
+            root.top = cc.StringField()
+            root.outer = cc.ListField(block_schema())
+            self.cfg = root()
+            self.cfg.outer = []
+            self.blocks = []
+            for i in range(2):
+                item = root._fields["outer"].field()
+                fill(item, "item%d" % i)
+                self.cfg.outer.append(item)
+                self.blocks.append((("outer", i), self.cfg.outer[i]))
+        self.base = {}
+
+    def run(self, mask, virtual, out):
+        """-> {holder: [findings]}; findings about the siblings / the ListField(Schema) are filed under every
+        holder's name-independent key "<block>" and reported with the first holder"""
+        from cincoconfig.core import ConfigFormat
+        cfg = self.cfg
+
+        def render(m):
+            if out == "tree":
+                return cfg.to_tree(virtual=virtual, sensitive_mask=m), None
+            content = cfg.dumps(out, virtual=virtual, sensitive_mask=m)
+            return ConfigFormat.get(out).loads(cfg, content), content
+
+        problems = {}
+
+        def add(holder, ob, what):
+            problems.setdefault(holder, []).append(
+                {"ob": ob, "wkey": "sensitive-item-in-container:%s/%s" % (holder, _MASK_LABEL[mask]),
+                 "what": "%s, %s, virtual=%s, mask %r, %s output: %s" % (holder, self.where, virtual, mask, out, what)})
+
+        if out == "tree":
+            tree = cfg.to_tree(virtual=virtual, sensitive_mask=mask)
+            content = None
+            # plain data is a statement about the tree itself (documents cannot hold anything else)
+            for bpath, _ in self.blocks:
+                btree = _get(tree, bpath)
+                for h in self.H:
+                    bad = [(_fmt(p), type(v).__name__) for p, v in leaves(btree.get(_holder_key(h)))
+                           if not (v is None or isinstance(v, (str, int, float, bool)))]
+                    bad += _nonplain_containers(btree.get(_holder_key(h)))
+                    if bad:
+                        add(h, OB_PLAIN, "the rendering holds non-basic objects: %r" % (bad[:3],))
+                bad = [(_fmt(p), type(v).__name__) for k in ("sib", "pub", "virt", "confs") if k in btree
+                       for p, v in leaves(btree[k]) if not (v is None or isinstance(v, (str, int, float, bool)))]
+                if bad:
+                    add("confs-and-siblings", OB_PLAIN, "the rendering holds non-basic objects: %r" % (bad[:3],))
+            # a tree with non-basic objects cannot be compared structurally: stop here for those
+            obs = tree
+        else:
+            try:
+                obs, content = render(mask)
+            except Exception as exc:        # noqa: BLE001 - a tree that is not plain data cannot be written
+                tree = cfg.to_tree(virtual=virtual, sensitive_mask=mask)
+                culprits = []
+                for bpath, _ in self.blocks:
+                    btree = _get(tree, bpath)
+                    for h in self.H:
+                        sub = btree.get(_holder_key(h))
+                        if _nonplain_containers(sub) or any(
+                                not (v is None or isinstance(v, (str, int, float, bool))) for _, v in leaves(sub)):
+                            culprits.append(h)
+                for h in sorted(set(culprits)) or ["confs-and-siblings"]:
+                    add(h, OB_PLAIN, "dumps raised %s: %s (the masked tree is not plain data)"
+                        % (type(exc).__name__, str(exc)[:80]))
+                return problems
+        key = (virtual, out)
+        if key not in self.base:
+            self.base[key] = canon(render(None)[0], cfg)
+        base = self.base[key]
+        obs_c = canon(obs, cfg)
+        for bpath, _ in self.blocks:
+            btree, bbase = _get(obs_c, bpath), _get(base, bpath)
+            braw = _get(obs, bpath)         # as rendered (ciphertexts not decrypted): what a reader of the output sees
+            for h, (_, value, sens) in self.H.items():
+                k = _holder_key(h)
+                if h in problems:
+                    continue
+                if sens and mask is not None:
+                    held = getattr(_get_cfg(self.cfg, bpath), k)
+                    want = None if not held else (mask * len(str(held)) if len(mask) == 1 else mask)
+                    if not strict_eq(btree.get(k, "<absent>"), want):
+                        add(h, OB_MASK, "a sensitive holder must render as %r, observed %r"
+                            % (want, btree.get(k, "<absent>")))
+                    for pt in _plaintexts(value):
+                        hit = [_fmt(bpath + (k,) + p) for p, v in leaves(braw.get(k)) if isinstance(v, str) and pt in v]
+                        if hit:
+                            add(h, OB_LEAK, "plaintext %r of a sensitive item shows at %s" % (pt, hit[0]))
+                            break
+                        if content is not None and pt.encode() in content:
+                            add(h, OB_LEAK, "plaintext %r of a sensitive item is in the document bytes" % pt)
+                            break
+                elif not sens or mask is None:
+                    d = diff(bbase.get(k, "<absent>"), btree.get(k, "<absent>"))
+                    if d:
+                        p, e, o = d[0]
+                        add(h, OB_NONSENS if mask is not None else OB_NONE,
+                            "%s differs from the rendering without mask: expected %r observed %r"
+                            % (_fmt(bpath + (k,) + p), e, o))
+            if "confs-and-siblings" in problems:
+                continue
+            # siblings and the list of configurations
+            if mask is not None:
+                for p, v in leaves(braw):
+                    if isinstance(v, str) and ("S3CR3T-sibling" in v or "S3CR3T-conf" in v):
+                        add("confs-and-siblings", OB_LEAK, "sensitive plaintext %r shows at %s" % (v, _fmt(bpath + p)))
+                        break
+                if content is not None and (b"S3CR3T-sibling" in content or b"S3CR3T-conf" in content):
+                    add("confs-and-siblings", OB_LEAK, "a sensitive sibling's plaintext is in the document bytes")
+            exp_pub = {kk: bbase[kk] for kk in bbase if kk in ("pub", "virt")}
+            got_pub = {kk: btree[kk] for kk in btree if kk in ("pub", "virt")}
+            exp_confs = [{kk: vv for kk, vv in it.items() if kk != "secret"} for it in bbase.get("confs") or []]
+            got_confs = [{kk: vv for kk, vv in it.items() if kk != "secret"} for it in btree.get("confs") or []]
+            d = diff({"block": exp_pub, "confs": exp_confs}, {"block": got_pub, "confs": got_confs})
+            if d:
+                p, e, o = d[0]
+                add("confs-and-siblings" if "virt" not in p else "virtual-field-of-list-item",
+                    OB_NONSENS if mask is not None else OB_NONE,
+                    "non-sensitive %s differs from the rendering without mask: expected %r observed %r"
+                    % (_fmt(bpath + p), e, o))
+        return problems
+
+
+def _nonplain_containers(tree, path=()):
+    out = []
+    if isinstance(tree, dict):
+        if type(tree) is not dict:
+            out.append((_fmt(path), type(tree).__name__))
+        for k, v in tree.items():
+            out += _nonplain_containers(v, path + (k,))
+    elif isinstance(tree, (list, tuple)):
+        if type(tree) is not list:
+            out.append((_fmt(path), type(tree).__name__))
+        for i, v in enumerate(tree):
+            out += _nonplain_containers(v, path + (i,))
+    return out
 
 
 def replay(case: dict) -> dict:
     """re-execute one replay dict: rebuild the schema/config from case['spec'], render it with case['mask'] into
     case['out'] and re-evaluate the clause case['obligation'] (for the failing input class case['witness_key'])"""
-    with sandbox():
-        findings = evaluate(case["spec"], case["mask"], case["out"])
+    if "holder" in case:
+        with sandbox():
+            per = HolderCtx(case["where"]).run(case["mask"], case["virtual"], case["out"])
+        findings = per.get(case["holder"], [])
+    else:
+        with sandbox():
+            findings = evaluate(case["spec"], case["mask"], case["out"])
     mine = [f for f in findings if f["ob"] == case["obligation"]
             and (case.get("witness_key") is None or f["wkey"] == case["witness_key"])]
     return {"fails": bool(mine),
